@@ -71,6 +71,12 @@ func (b *backoff) next(attempt int) time.Duration {
 	durf := minf * math.Pow(1.5, float64(attempt))
 	durf = durf + rand.Float64()*minf
 
+	// clamp before converting: a float64 outside the int64 range (or NaN) converts
+	// to an implementation-defined value, which is a negative delay on amd64
+	if !(durf < float64(b.maxDelay)) {
+		return b.maxDelay
+	}
+
 	delay := time.Duration(durf)
 
 	if delay > b.maxDelay {
